@@ -129,6 +129,9 @@ def run(ctx, sm, facts):
     run_specs(ctx, facts, 'C14', 'C14.a', ctx.tier, ctx.seed, floor=5)
     refusals(ctx, facts)
     definite_failures(ctx, facts, sm, 'C14.c', [FXP])
+    ctx.rule('C14.e', 'instance isolation: no mutable default / class-level container / memoised method in arithmetic_fxp.py, arithmetic.py (the blocks it is composed of) and relational.py')
+    from ..leafrules import shared_instance_state
+    shared_instance_state(ctx, facts, 'C14.e', [FXP, 'py4hw/logic/arithmetic.py', 'py4hw/logic/relational.py'])
     ctx.not_decided += ['formats wider than the grid (the blocks are width-generic compositions of Add / Sub / Mul / SignExtend / Range, themselves decided by C07 / C08 on their own grids)',
                         'FixedPointtoFP_SP (C13)']
     ctx.assumptions += ['elaborator and leaf summaries as in C07 / C08; reference = Python integer arithmetic on the sign-decoded encodings (hv/specs.py)']
